@@ -32,6 +32,9 @@ def shards(tier, seed):
             for key in range(16):
                 out.append({"id": "full-%02x-%x" % (rc, key), "kind": "grid", "rc": rc, "keys": [key], "ascqs": list(range(256))})
     out.append({"id": "tables", "kind": "tables"})
+    for part in range(4):
+        out.append({"id": "truncated-%d" % part, "kind": "truncated", "part": part, "parts": 4, "combos": 1 if tier == "quick" else 6})
+    out.append({"id": "transport", "kind": "transport", "n": 1500 if tier == "quick" else 40000})
     out.append({"id": "lengths", "kind": "lengths", "n": 2000 if tier == "quick" else 60000})
     out.append({"id": "odd", "kind": "odd", "n": 2000 if tier == "quick" else 40000})
     return out
@@ -123,7 +126,74 @@ def check(ctx, mod, ref, buf, want_text=True, sample=False):
                 ctx.fail("C08:text.sense_key_%x" % key, "sense key %Xh described as %r, SPC: %r" % (key, text, ref.SENSE_KEYS[key]), wit)
 
 
+COMBOS = [["information"], ["ata_status"], ["information", "ata_status"], ["sense_key_specific", "fru"], ["forwarded"], ["command_specific", "information", "block"],
+          ["stream", "vendor"], ["information", "forwarded", "ata_status"]]
+
+
+def run_transport(shard, ctx):
+    """the condition as the transports raise it: SCSIDevice.execute (stand-in sgio hands over the sense bytes) and
+    ISCSIDevice.execute (task.raw_sense); the values are those of the buffer the target returned"""
+    import sys
+
+    from vmon.sim import install
+
+    install.install_fakes()
+    import pyscsi.pyscsi.scsi_enum_command as E
+    from pyscsi.pyscsi.scsi_cdb_testunitready import TestUnitReady
+
+    from vmon.spec import sense as ref
+
+    rng = ctx.rng()
+    sg, isc = sys.modules["sgio"], sys.modules["iscsi"]
+    cur = {}
+    sg.handler = isc.handler = lambda ev: (2, cur["sense"])
+    devs = {"sgio": install.sgio_device()[0], "iscsi": install.iscsi_device()}
+    for j in range(shard["n"]):
+        rc = rng.choice(RCS)
+        asc, ascq = rng.choice(sorted(ref.ASC)) if rng.random() < 0.6 else (rng.getrandbits(8), rng.getrandbits(8))
+        key = rng.randrange(16)
+        if rc >= 0x72 and j % 3 == 0:
+            buf = ref.build_with_descriptors(rc, key, asc, ascq, [ref.descriptor(k, rng) for k in rng.choice(COMBOS)])
+        else:
+            # every length a target may return: the SCSI-2 style 14 bytes, the usual 18, up to 252
+            n = (8, 13, 14, 15, 16, 18, 18, 20, 32, 96, 252)[j % 11] if j % 2 else rng.randint(8, 60)
+            if rc < 0x72:
+                n = max(n, 13 + (j % 2))
+            buf = ref.build(rc, rng.getrandbits(1), key, asc, ascq, n, bytes(rng.getrandbits(8) for _ in range(n)), info=j)
+        fmt, deferred, rkey, rasc, rascq = ref.parse(buf)
+        for t, dev in devs.items():
+            sg.log = []
+            isc.log = []
+            cur["sense"] = bytearray(buf)
+            wit = {"transport": t, "sense": bytes(buf), "len": len(buf)}
+            ctx.case((t, bytes(buf)), True, sample={"transport": t, "sense": bytes(buf)} if j % 307 == 0 else None)
+            ctx.add("transport_sense_lengths", len(buf))
+            try:
+                dev.execute(TestUnitReady(E.spc.TEST_UNIT_READY))
+                exc = None
+            except Exception as e:  # noqa: BLE001
+                exc = e
+            if not isinstance(exc, dev.CheckCondition):
+                continue  # whether it is raised at all is C07's business
+            ctx.count("transport_conditions")
+            try:
+                got = (exc.data.get("sense_key"), exc.asc, exc.ascq)
+                text = str(exc)
+            except Exception as e:  # noqa: BLE001
+                ctx.fail("C08:transport.%s.inspect_raises.%s" % (t, type(e).__name__), "inspecting the CheckCondition raised by %s failed: %s" % (t, e), wit, exc=e)
+                continue
+            if fmt is not None and got != (rkey, rasc, rascq):
+                ctx.fail("C08:transport.%s.values.%s" % (t, rcclass(rc)), "%s over %s: reports key/asc/ascq %r, the target returned %r (sense of %d bytes)"
+                         % ("CheckCondition", t, got, (rkey, rasc, rascq), len(buf)), wit)
+            elif fmt is not None and (rasc, rascq) in ref.ASC and ref.norm(ref.ASC[(rasc, rascq)]) not in ref.norm(text):
+                ctx.fail("C08:transport.%s.text" % t, "%02X/%02X described as %r" % (rasc, rascq, text), wit)
+    for d in devs.values():
+        d.close()
+
+
 def run(shard, ctx):
+    if shard["kind"] == "transport":
+        return run_transport(shard, ctx)
     import pyscsi.pyscsi.scsi_sense as mod
 
     from vmon.spec import sense as ref
@@ -150,6 +220,24 @@ def run(shard, ctx):
             for rc in RCS:
                 for key in (0, 5, 6, 0xB):
                     check(ctx, mod, ref, ref.build(rc, 1, key, asc, ascq, 18 if rc < 0x72 else 8), sample=(asc == 0x29 and rc == 0x70 and key == 6))
+    elif kind == "truncated":
+        # every assigned code, descriptor format with real descriptors and fixed format with the optional fields in use, cut
+        # at every length (a target may return fewer bytes than ADDITIONAL SENSE LENGTH announces)
+        pairs = sorted(set(ref.ASC) | {(k >> 8, k & 0xFF) for k in mod.sense_ascq_dict} | {(0x00, 0x1D), (0x5D, 0x10), (0x0B, 0x01)})
+        for idx, (asc, ascq) in enumerate(pairs):
+            if idx % shard["parts"] != shard["part"]:
+                continue
+            for cj in range(shard["combos"]):
+                combo = COMBOS[(idx + cj) % len(COMBOS)]
+                key = (0, 1, 2, 5, 6, 0xB)[(idx + cj) % 6]
+                full = ref.build_with_descriptors((0x72, 0x73)[(idx + cj) % 2], key, asc, ascq, [ref.descriptor(k, rng) for k in combo])
+                for n in range(1, len(full) + 1):
+                    check(ctx, mod, ref, full[:n], want_text=n >= 4)
+                ctx.count("truncation_sweeps")
+                fixed = bytearray(ref.build((0x70, 0x71)[(idx + cj) % 2], 1, key, asc, ascq, 18, bytes(rng.getrandbits(8) for _ in range(18)), info=idx))
+                fixed[15] |= 0x80  # SKSV: sense key specific bytes in use
+                for n in range(1, 19):
+                    check(ctx, mod, ref, bytes(fixed[:n]), want_text=n >= 14)
     elif kind == "lengths":
         for j in range(shard["n"]):
             rc = rng.choice(RCS)
@@ -189,6 +277,8 @@ def finalize(merged, tier):
         merged["inconclusive"].append("SCSICheckCondition never constructed")
     if c.get("text_cross_checks", 0) == 0:
         merged["inconclusive"].append("no ASC/ASCQ text was cross-checked")
+    if c.get("truncation_sweeps", 0) == 0 or c.get("transport_conditions", 0) == 0:
+        merged["inconclusive"].append("truncation sweeps / transport path did not run")
     return {"exhaustive": tier == "thorough",
             "exhaustive_dimension": "all 65536 ASC/ASCQ pairs x 16 keys x response codes 70h-73h" if tier == "thorough" else "256 ASC x 5 ASCQ x 16 keys x 70h-73h"}
 
